@@ -1,6 +1,6 @@
 """C08 — completion is stable."""
 from .. import scenlib as S
-from ._common import flat, mk, t_tree
+from ._common import flat, matrix_jobs, mk, t_tree
 
 META = dict(
     explanation='Snapshots (status, completion signal, result ids + statuses + value digests) are taken at the first observation of '
@@ -32,4 +32,6 @@ def jobs(tier):
             mk('C08', 'child/await/k1', S.child('await', k=1), witnesses=W, max_paths=6000),
             mk('C08', 'x2/other_running', S.two_bus_await('other_running', ('A', 'B')), witnesses=W, max_paths=6000),
         ]
+    out += matrix_jobs('C08', 'm1', tier)
+    out += matrix_jobs('C08', 'm2', tier)
     return flat(out)
